@@ -47,6 +47,18 @@ def built_variant(f, blocks, adt):
     vs = set()
     for bi, s in core.region_aggregates(f, blocks, adt):
         vs.add(s["rv"]["variant"])
+    # a tuple variant used as a function (`read_string(p).map(Self::Create)`): the constructor is an operand of a call
+    blocks = set(blocks)
+    prog = PROG[0]
+    names = {v["name"] for v in prog.enum_variants(adt)} if prog is not None and adt in prog.adts else set()
+    for c in f.calls():
+        if c.bb not in blocks:
+            continue
+        for o in c.args:
+            k = op_const(o) if isinstance(o, dict) else None
+            fn = (k or {}).get("fn") or ""
+            if fn.startswith(adt + "::") and fn[len(adt) + 2:] in names:
+                vs.add(fn[len(adt) + 2:])
     return vs
 
 
@@ -219,7 +231,7 @@ def check(cx):
     r4 = cx.rule("C20.4", "FLOW(taint): in the tcp decoders no value produced by from_le_bytes reaches "
                  "Vec::with_capacity / vec! unless it passed through min() with a payload-length-derived bound or is "
                  "dominated by a comparison with the cap", floor=3)
-    for f in p.fns.values():
+    for f in K.each_fn(p):
         if not f.id.startswith("tcp::") or f.id.startswith("tcp::session"):
             continue
         srcs = {op_local({"c": c.dst}) for c in f.calls() if c.callee.endswith("::from_le_bytes")}
@@ -261,7 +273,7 @@ def check(cx):
                   "a few bytes of garbage cannot buy millions of iterations/allocations", floor=3)
     from axvlib.core import natural_loops
     READERS = {"tcp::read_string_with_len", "tcp::read_string"}
-    for f in sorted(p.fns.values(), key=lambda x: x.id):
+    for f in K.each_fn(p):
         if not f.id.startswith("tcp::") or f.id.startswith("tcp::session") or f.root:
             continue
         srcs = {op_local({"c": c.dst}) for c in f.calls() if c.callee.endswith("::from_le_bytes")}
@@ -388,7 +400,12 @@ def check(cx):
                             if v in m:
                                 excused.add(m[v])
                 region = dominated(fl, err_t)
-                reach = fl.reachable_threaded(err_t, blocked=send | excused)
+                from axvlib import absint
+                try:
+                    # paths that known flags rule out are discarded (a predicate helper returns false on its `_` arm)
+                    reach = absint.PathSearch(p, fl).feasible_blocks(err_t, kill=send | excused)
+                except absint.TooManyStates:
+                    reach = fl.reachable_threaded(err_t, blocked=send | excused)
                 leaves = [b for b in reach if b not in region or fl.blocks[b]["term"]["t"] == "ret"]
                 good = not leaves and bool(send & region)
                 detail = "every way out of the decode-error arm other than ConnectionClosed/Io passes send_response" if good else \
